@@ -230,8 +230,15 @@ func (d *driver[K, V]) get(j int) {
 func (d *driver[K, V]) firstLast() {
 	d.note("FirstLast", 0, 0)
 	s := d.sut()
-	fk, fv := s.First()
-	lk, lv := s.Last()
+	var fk, lk K
+	var fv, lv V
+	if p := vkit.Try(func() {
+		fk, fv = s.First()
+		lk, lv = s.Last()
+	}); p != nil {
+		d.fail("panic", fmt.Sprintf("%s: First/Last panicked: %s (%s)", d.cfg.Name, p.Msg, p.JuniperFrame()))
+		return
+	}
 	d.r.Eval(2)
 	if d.model.Len() == 0 {
 		var zk K
@@ -593,18 +600,22 @@ func runHistory[K, V any](c *vkit.Case, cfg tk.Config[K, V]) {
 			break
 		}
 		if d.model.Len() <= 5000 {
-			it := s.Iter(tk.Bnd[K]{}, tk.Bnd[K]{}, false, true)
 			i := 0
-			for {
-				kv, ok := it.Next()
-				if !ok {
-					break
+			if p := vkit.Try(func() {
+				it := s.Iter(tk.Bnd[K]{}, tk.Bnd[K]{}, false, true)
+				for {
+					kv, ok := it.Next()
+					if !ok {
+						break
+					}
+					if i >= d.model.Len() || d.cfg.Cmp(kv.K, d.model.E[i].K) != 0 || !d.cfg.ValEq(kv.V, d.model.E[i].V) {
+						d.fail("final-iterate", fmt.Sprintf("%s: final Iterate() item %d = %v differs from the ideal map", cfg.Name, i, kv))
+						break
+					}
+					i++
 				}
-				if i >= d.model.Len() || d.cfg.Cmp(kv.K, d.model.E[i].K) != 0 || !d.cfg.ValEq(kv.V, d.model.E[i].V) {
-					d.fail("final-iterate", fmt.Sprintf("%s: final Iterate() item %d = %v differs from the ideal map", cfg.Name, i, kv))
-					break
-				}
-				i++
+			}); p != nil {
+				d.fail("panic", fmt.Sprintf("%s: final Iterate() panicked after %d items: %s (%s)", cfg.Name, i, p.Msg, p.JuniperFrame()))
 			}
 			d.r.Eval(1)
 			if !d.failed && i != d.model.Len() {
